@@ -319,7 +319,7 @@ def check(run):
         d = t["dialects"][0]
         for n in (5, 10, 31, 10 ** 4):
             jobs.append((t, d, n, "10", 10, "thread", True))
-    res = pmap(lambda j: child(bindir, ["nest", j[0]["id"], j[2], j[1], j[3], j[5]], timeout=300 if thorough else 120), jobs)
+    res = pmap(lambda j: child(bindir, ["nest", j[0]["id"], j[2], j[1], j[3], j[5]], timeout=120), jobs)
     stat, distinct = {}, set()
     bad = {}
     for j, r in zip(jobs, res):
